@@ -33,7 +33,7 @@ def setup(ctx):
     ctx.rule = (
         "cells = server context path {create_server_context via start_server, create_pyopenssl_server_context via "
         "start_server, auto-generated stdlib, auto-generated PyOpenSSL, both factory functions called directly with "
-        "request_client_cert on/off; every one of them also with the OpenSSL security level lowered to 0 after "
+        "request_client_cert on/off, start_server with certificate-auth rule lists of every shape (require only, allow-list only, empty allow-list, both, neither) x supplied/auto-generated certificate; every one of them also with the OpenSSL security level lowered to 0 after "
         "construction, so that the refusal is nauyaca's version floor and not OpenSSL's default level} x protocol version offered alone by a permissive client (TLS 1.0 .. 1.3, "
         "SECLEVEL=0, several cipher strings) ; client contexts {TOFU mode, CA mode, GeminiClient.get end-to-end} x "
         "permissive peer capped at TLS 1.0 / 1.1 ; plaintext request lines and random bytes to every server variant. "
@@ -47,7 +47,7 @@ def setup(ctx):
     ctx.require("monitor", "controls_ok", 6)
     ctx.require("monitor", "new_version_ok", 8)
     ctx.require("monitor", "old_version_attempts_client", 3)
-    ctx.require("monitor", "plaintext_probes", 16)
+    ctx.require("monitor", "plaintext_probes", 40)
 
 
 def permissive_client(vmin, vmax, ciphers="ALL:@SECLEVEL=0"):
@@ -168,10 +168,10 @@ def pyopenssl_control_factory(ident):
 served_modern = {}
 
 
-def probe_server(ctx, label, port, controls, ciphers_list, kind):
+def probe_server(ctx, label, port, controls, ciphers_list, kind, light=False):
     """controls: dict version name -> bool (old version negotiable against the matching control)."""
     served_modern.setdefault(label, False)
-    for vname, v in VERSIONS:
+    for vname, v in (VERSIONS if not light else VERSIONS[1:3]):
         for ciphers in ciphers_list:
             cc = permissive_client(v, v, ciphers)
             res = try_handshake(port, cc)
@@ -196,10 +196,12 @@ def probe_server(ctx, label, port, controls, ciphers_list, kind):
             ctx.case(("server", label, vname, ciphers, res[0]), True, sample=wit)
 
 
-def plaintext_probe(ctx, label, port, handler_calls=None, docroot=None):
+def plaintext_probe(ctx, label, port, handler_calls=None, docroot=None, light=False):
     audit = AuditMonitor.get()
     payloads = [b"gemini://localhost/\r\n", b"gemini://localhost/index.gmi\r\n", b"titan://localhost/x;size=1\r\nA", b"GET / HTTP/1.1\r\nHost: x\r\n\r\n",
                 b"\r\n", b"\x00" * 50, os.urandom(200), b"\x16\x03\x01\x00\x05hello", b"\x80\x2e\x01\x00\x02" + b"\x00" * 40, b"gemini://localhost/" + b"a" * 2000 + b"\r\n"]
+    if light:
+        payloads = [payloads[0], b"gemini://localhost/admin/\r\n", payloads[3]]
     for p in payloads:
         before = handler_calls[0] if handler_calls else 0
         audit.start()
@@ -207,7 +209,7 @@ def plaintext_probe(ctx, label, port, handler_calls=None, docroot=None):
         try:
             s = socket.create_connection(("127.0.0.1", port), timeout=5)
             s.sendall(p)
-            s.settimeout(1.5)
+            s.settimeout(1.0)
             try:
                 while len(got) < 4096:
                     d = s.recv(4096)
@@ -292,15 +294,35 @@ def run(ctx):
         # ---- server cells through start_server (four construction paths)
         cells = [("start_server:supplied:stdlib", "stdlib", True), ("start_server:supplied:pyopenssl", "pyopenssl", True),
                  ("start_server:auto:stdlib", "stdlib", False), ("start_server:auto:pyopenssl", "pyopenssl", False)]
-        for label, backend, own in cells:
+        from nauyaca.server.middleware import CertificateAuthConfig, CertificateAuthPathRule
+
+        fp_any = "sha256:" + "ab" * 32
+        rule_shapes = {
+            "rules=require-only": [CertificateAuthPathRule(prefix="/admin/", require_cert=True)],
+            "rules=allowlist-only": [CertificateAuthPathRule(prefix="/admin/", allowed_fingerprints={fp_any})],
+            "rules=empty-allowlist-only": [CertificateAuthPathRule(prefix="/admin/", allowed_fingerprints=set())],
+            "rules=require+allowlist": [CertificateAuthPathRule(prefix="/admin/", require_cert=True, allowed_fingerprints={fp_any})],
+            "rules=none-needing-certs": [CertificateAuthPathRule(prefix="/admin/")],
+        }
+        cells_cfg = [(label, backend, own, None) for label, backend, own in cells]
+        for shape_name, rules in rule_shapes.items():
+            for own in (True, False):
+                cells_cfg.append((f"start_server:{'supplied' if own else 'auto'}:{shape_name}", "by-rules", own, CertificateAuthConfig(path_rules=rules)))
+        for label, backend, own, cac in cells_cfg:
             out = io.StringIO()
             with contextlib.redirect_stdout(out):
-                srv = live.LiveServer(os.path.join(base, "doc"), backend=backend, use_own_cert=own, server_ident=ident)
+                if cac is None:
+                    srv = live.LiveServer(os.path.join(base, "doc"), backend=backend, use_own_cert=own, server_ident=ident)
+                else:
+                    # the backend is whatever start_server picks for these rules
+                    srv = live.LiveServer(os.path.join(base, "doc"), backend="stdlib", use_own_cert=own, server_ident=ident, start_kwargs={"certificate_auth_config": cac})
+                    backend = "pyopenssl" if any(r.require_cert or r.allowed_fingerprints is not None for r in cac.path_rules) else "stdlib"
                 srv.__enter__()
             try:
                 leaked += re.findall(r"(?:Certificate|Key): (\S+)", out.getvalue())
-                probe_server(ctx, label, srv.port, controls, ciphers_list, backend)
-                plaintext_probe(ctx, label, srv.port, docroot=os.path.join(base, "doc"))
+                light = cac is not None and ctx.quick()
+                probe_server(ctx, label, srv.port, controls, ciphers_list, backend, light=light)
+                plaintext_probe(ctx, label, srv.port, docroot=os.path.join(base, "doc"), light=light)
             finally:
                 srv.__exit__()
         # ---- factory functions called directly, client-cert request on/off, spy handler
